@@ -83,6 +83,11 @@ Apply(r, st) ==
     [] name = "copyin" ->
          LET n == Min(len, Len(op[2])) IN
          [m |-> WithStore(Same, Splice(S, off, SubSeq(op[2], 1, n))), ok |-> st.res = n]
+    [] name = "copyself" ->
+         \* Copy between two (possibly overlapping) sub-views of the view itself: as on independent copies of the
+         \* rows, i.e. the destination receives the rows the source held BEFORE the copy
+         LET n == Min(op[3], op[5]) IN
+         [m |-> WithStore(Same, Splice(S, off + op[2], SubSeq(view, op[4] + 1, op[4] + n))), ok |-> st.res = n]
     [] name = "copyout" ->
          LET k == op[2]  n == Min(k, len)
              want == SubSeq(view, 1, n) \o [j \in 1..(k - n) |-> ZeroRow(r)]
